@@ -98,8 +98,17 @@ def run_batch(binp, lines, timeout=300):
             break
     return results
 
-def run_child(binp, line, timeout=20):
-    """one history in its own process"""
+def run_child(binp, line, timeout=20, _retry=True):
+    """one history in its own process.  A timeout is only believed after a second run with four times the
+    limit also times out (a loaded machine must not turn a slow run into a `hang`)."""
+    r = _run_child_once(binp, line, timeout)
+    if r["fate"] == "timeout" and _retry:
+        r2 = _run_child_once(binp, line, timeout * 4)
+        r2["retried_after_timeout"] = True
+        return r2
+    return r
+
+def _run_child_once(binp, line, timeout):
     try:
         p = subprocess.run([binp, "one", line], stdout=subprocess.PIPE, stderr=subprocess.PIPE, timeout=timeout,
                            env=dict(os.environ, RUST_BACKTRACE="0"))
